@@ -220,7 +220,11 @@ static int runScenario(const std::string& profile, const std::string& variant, c
   {
     EKrigOpt calcul = (variant == "block_on_points") ? EKrigOpt::BLOCK : EKrigOpt::POINT;
     VectorInt ndiscs; if (variant == "block_on_points") ndiscs = {2, 2};
-    err = kriging(e.dbin, e.dbout, e.model, e.neigh, calcul, true, true, false, ndiscs);
+    if (variant == "nolocator")
+      err = kriging(e.dbin, e.dbout, e.model, e.neigh, calcul, true, true, false, ndiscs, VectorInt(), nullptr,
+                    NamingConvention("Kriging", true, true, false));
+    else
+      err = kriging(e.dbin, e.dbout, e.model, e.neigh, calcul, true, true, false, ndiscs);
     e.expectedNew = 2;
   }
   else if (profile == "krigtest")
@@ -233,7 +237,10 @@ static int runScenario(const std::string& profile, const std::string& variant, c
   }
   else if (profile == "xvalid")
   {
-    err = xvalid(e.dbin, e.model, e.neigh);
+    if (variant == "nolocator")
+      err = xvalid(e.dbin, e.model, e.neigh, false, 1, 1, 0, VectorInt(), NamingConvention("Xvalid", true, true, false));
+    else
+      err = xvalid(e.dbin, e.model, e.neigh);
     e.expectedNew = 2;
   }
   else if (profile == "test_neigh")
@@ -248,7 +255,10 @@ static int runScenario(const std::string& profile, const std::string& variant, c
   }
   else if (profile == "migrate")
   {
-    err = migrate(e.dbin, e.dbout, variant == "bad_name" ? "nosuchvar" : "z1");
+    if (variant == "nolocator")
+      err = migrate(e.dbin, e.dbout, "z1", 1, VectorDouble(), false, false, false, NamingConvention("Migrate", false, true, false));
+    else
+      err = migrate(e.dbin, e.dbout, variant == "bad_name" ? "nosuchvar" : "z1");
     e.expectedNew = 1;
   }
   else if (profile == "stats_grid")
